@@ -1541,7 +1541,17 @@ def sib_qty_rule(rep, F):
     if len(b) != 1 or len(m) != 1:
         rep.lost("build_value / calc_value_size not found")
         return
-    is_sum = lambda o: any(x.startswith("call:") and x.split("@")[0].endswith("BigNum::checked_add") for x in o)
+    import mustpass as _mpq
+    _deep = _mpq.call_origin_deep(F, "BigNum::checked_add")
+
+    def is_sum(o):
+        # an accumulation with checked_add: directly, through a crate helper that returns such a sum, or inside the closure of a fold
+        if any(_deep(x) for x in o):
+            return True
+        for x in o:
+            if x.startswith("closure:") and x[8:] in F.fns and any((c.to or "").endswith("BigNum::checked_add") for c in F.calls(x[8:])):
+                return True
+        return False
     # real side
     fn, org = F.fns[b[0]], _ff.Origins(F, b[0])
     sets = [c for c in F.calls(b[0]) if (c.to or "").endswith("MultiAsset::set_asset")]
